@@ -15,6 +15,7 @@ mod array_engine;
 mod cursor;
 mod elem;
 mod gen;
+mod giant;
 mod model;
 mod rng;
 mod runner;
@@ -131,6 +132,11 @@ fn trace_hash(t: &steps::ArrayTrace) -> u64 {
 
 fn one_array_run(profile: Profile, thorough: bool, rseed: u64, journal: runner::Journal<'_>, only_variant: Option<usize>) -> (Vec<runner::RunOutcome>, bool) {
     let mut rng = Rng::new(rseed);
+    // one run in 24 of C01 / C06 works on giant zero-sized arrays (dimension arithmetic near usize::MAX)
+    if matches!(profile, Profile::C01 | Profile::C06) && rng.chance(1, 24) {
+        let n = rng.range(2, 14);
+        return (vec![runner::run_giant(&[], Some(&mut rng), n, journal)], false);
+    }
     let cfg = draw_cfg(&mut rng, profile, thorough);
     // crash-point / consumption-split sweeps: every run in thorough C11/C12, 1 in 8 otherwise
     // (C07: every (front, back) consumption split of one drain, dropped afterwards)
@@ -141,6 +147,9 @@ fn one_array_run(profile: Profile, thorough: bool, rseed: u64, journal: runner::
             Flavour::Tok => runner::run_sweep::<Tok>(s, &cfg, journal, only_variant),
             Flavour::Cid => runner::run_sweep::<Cid>(s, &cfg, journal, only_variant),
             Flavour::ZTok => runner::run_sweep::<ZTok>(s, &cfg, journal, only_variant),
+            Flavour::Mov => runner::run_sweep::<Mov>(s, &cfg, journal, only_variant),
+            Flavour::Fat => runner::run_sweep::<Fat>(s, &cfg, journal, only_variant),
+            Flavour::Giant => unreachable!(),
         };
         (outs, true)
     } else {
@@ -148,6 +157,9 @@ fn one_array_run(profile: Profile, thorough: bool, rseed: u64, journal: runner::
             Flavour::Tok => runner::run_generated::<Tok>(&mut rng, &cfg, journal),
             Flavour::Cid => runner::run_generated::<Cid>(&mut rng, &cfg, journal),
             Flavour::ZTok => runner::run_generated::<ZTok>(&mut rng, &cfg, journal),
+            Flavour::Mov => runner::run_generated::<Mov>(&mut rng, &cfg, journal),
+            Flavour::Fat => runner::run_generated::<Fat>(&mut rng, &cfg, journal),
+            Flavour::Giant => unreachable!(),
         };
         (vec![o], false)
     }
@@ -283,7 +295,7 @@ fn cursor_worker(prop: &str, thorough: bool, seed: u64, build: &str, start: u64,
     for run in start..end {
         raw_out(&format!("B {}\n", run));
         let mut rng = Rng::new(run_seed(seed, prop, build, run));
-        let t = cursor::gen_trace(&mut rng, prop, thorough);
+        let t = if rng.chance(1, 12) { cursor::gen_trace_zst(&mut rng, prop) } else { cursor::gen_trace(&mut rng, prop, thorough) };
         let y0 = stats.yielded;
         let c0 = stats.calls;
         let res = cursor::exec(&t, &mut stats);
@@ -398,7 +410,7 @@ fn journal_cmd(args: &[String]) -> i32 {
         0
     } else if matches!(prop.as_str(), "C08" | "C09" | "C10") {
         let mut rng = Rng::new(run_seed(seed, prop, build, run));
-        let t = cursor::gen_trace(&mut rng, prop, thorough);
+        let t = if rng.chance(1, 12) { cursor::gen_trace_zst(&mut rng, prop) } else { cursor::gen_trace(&mut rng, prop, thorough) };
         // the whole trace is known before anything executes: journal it first
         let _ = f.write_all(format!("{}\n", serde_json::to_string(&t).unwrap()).as_bytes());
         let mut st = cursor::CStats::default();
